@@ -1,5 +1,6 @@
 import XgcmModel.Proofs.Signature
 import XgcmModel.Proofs.SigEquiv
+import XgcmModel.Proofs.SigShape
 import XgcmModel.Gen.Regex
 /-
   C15 — Grid-ufunc signatures: parse/print are inverse; equivalence is renaming.
@@ -120,6 +121,104 @@ theorem accepted_is_wellformed_core (text : List Char) (s : Sig) (h : parseSig t
           exact ⟨parseArgs_ne_nil _ _ _ h1, parseArgs_ne_nil _ _ _ h2⟩
         · cases h
     · cases h
+
+/-- **Nothing but renderings is accepted.**  Whatever text the parser accepts is, spaces aside,
+    EXACTLY the rendering of a concrete syntax tree: on each side of one `->` a non-empty comma-separated
+    list of parenthesised arguments, each a sequence of `name:position` pairs with a non-empty
+    word-character name and one of the five position words, each pair optionally followed by a single
+    comma (the regular expression allows a trailing or omitted comma between pairs; the printer never
+    produces either) — and the parsed signature is that tree with the commas forgotten.  For texts
+    of ANY length. -/
+theorem accepted_is_a_rendering (text : List Char) (s : Sig) (h : parseSig text = some s) :
+    ∃ ci co : List (List CPair), ci ≠ [] ∧ co ≠ [] ∧ ci.map eraseP = s.ins ∧ co.map eraseP = s.outs ∧
+      text.filter (· != ' ') = renderArgsC ci ++ '-' :: '>' :: renderArgsC co ∧
+      (∀ a ∈ ci, CArgWF a) ∧ (∀ a ∈ co, CArgWF a) :=
+  parseSig_sound text s h
+
+/-- **Rejection, for texts of any length.**  If the space-free text contains, anywhere, two adjacent
+    characters whose classes may not follow each other (table `okPair`), it is rejected. -/
+theorem forbidden_pair_rejected (text x y : List Char) (a b : Char)
+    (hf : text.filter (· != ' ') = x ++ a :: b :: y) (h : okPair (cls a) (cls b) = false) :
+    parseSig text = none := by
+  apply rejected_of_not_shape
+  unfold shapeOK
+  rw [hf, bad_pair_dead _ x y a b h]
+  rfl
+
+/-- the listed classes as forbidden pairs: doubled commas; juxtaposed, nested or doubly closed
+    parentheses; empty names (`(:` `,:`), empty positions (`:)` `:,` `::`); a second dash, an arrow
+    not followed by `(`, an argument not preceded by `,` `->` or the start -/
+theorem forbidden_pairs :
+    okPair (cls ',') (cls ',') = false ∧ okPair (cls ')') (cls '(') = false ∧
+    okPair (cls '(') (cls '(') = false ∧ okPair (cls ')') (cls ')') = false ∧
+    okPair (cls '(') (cls ':') = false ∧ okPair (cls ',') (cls ':') = false ∧
+    okPair (cls ':') (cls ')') = false ∧ okPair (cls ':') (cls ',') = false ∧
+    okPair (cls ':') (cls ':') = false ∧ okPair (cls '-') (cls '-') = false ∧
+    okPair (cls '>') (cls '>') = false ∧ okPair (cls '>') (cls ')') = false ∧
+    okPair (cls ')') (cls '>') = false ∧ okPair (cls '(') (cls ',') = false ∧
+    okPair (cls ')') (cls 'a') = false ∧ okPair (cls 'a') (cls '(') = false ∧
+    okPair (cls 'a') (cls '-') = false ∧ okPair (cls '>') (cls 'a') = false := by
+  decide
+
+/-- stray characters: any character that is neither a word character nor one of `( ) , : - >`
+    (and not a space, which is deleted) anywhere in the text -/
+theorem stray_character_rejected (text x y : List Char) (c : Char)
+    (hf : text.filter (· != ' ') = x ++ c :: y) (h : cls c = .other) : parseSig text = none := by
+  apply rejected_of_not_shape
+  unfold shapeOK
+  rw [hf, other_dead _ x y c h]
+  rfl
+
+example : cls '\n' = .other ∧ cls ';' = .other ∧ cls '.' = .other ∧ cls '[' = .other ∧ cls '*' = .other ∧
+    cls '=' = .other ∧ cls '\t' = .other := by decide
+
+/-- a missing side: a text without `>` is rejected; so is one that does not end with `)` (nothing
+    after the arrow) or does not start with `(` (nothing before it) -/
+theorem missing_arrow_rejected (text : List Char) (h : '>' ∉ text) : parseSig text = none := by
+  apply rejected_of_not_shape
+  unfold shapeOK
+  have h' : '>' ∉ text.filter (· != ' ') := fun e => h (List.mem_filter.mp e).1
+  rcases runS_count .start 0 _ h' with h1 | ⟨q, h1⟩
+  · rw [h1]; rfl
+  · rw [h1]; cases q <;> rfl
+
+theorem must_end_with_parenthesis (text x : List Char) (c : Char)
+    (hf : text.filter (· != ' ') = x ++ [c]) (hc : c ≠ ')') : parseSig text = none := by
+  apply rejected_of_not_shape
+  unfold shapeOK
+  rw [hf]
+  rcases runS_snoc_class (some (.start, 0)) x c with h1 | ⟨k, h1⟩
+  · rw [h1]; rfl
+  · rw [h1]
+    have : cls c ≠ .rpar := by
+      intro e
+      simp only [cls] at e
+      repeat' split at e
+      all_goals first | cases e | (rename_i h; exact hc h)
+    simp [this]
+
+theorem must_start_with_parenthesis (text y : List Char) (c : Char)
+    (hf : text.filter (· != ' ') = c :: y) (hc : c ≠ '(') : parseSig text = none := by
+  apply rejected_of_not_shape
+  unfold shapeOK
+  rw [hf, runS_cons]
+  have : stepS (some (.start, 0)) c = none := by
+    have hcl : cls c ≠ .lpar := by
+      intro e
+      simp only [cls] at e
+      repeat' split at e
+      all_goals first | cases e | (rename_i h; exact hc h)
+    have : okPair .start (cls c) = false := by
+      cases hcc : cls c <;> first | rfl | exact absurd hcc hcl
+    simp [stepS, this]
+  rw [this, runS_none]
+  rfl
+
+theorem empty_rejected (text : List Char) (hf : text.filter (· != ' ') = []) : parseSig text = none := by
+  apply rejected_of_not_shape
+  unfold shapeOK
+  rw [hf]
+  rfl
 
 /-- concrete rejections, one per class listed in the property (machine-checked
     on the model; the exhaustive corruption stream of the correspondence covers
